@@ -1,2 +1,2 @@
 #!/bin/bash
-exec "$(dirname "$0")/bm.sh" C15 "$@"
+exec "$(dirname "$0")/run.sh" C15 "$@" bm exec:mirror
